@@ -4,6 +4,7 @@ from hypothesis import strategies as st
 from vf import gens, oracles
 from vf.runner import hyp_run, run_cases, guard, fail, exc_failure
 
+THOROUGH_SCALE = 3      # multiplies every generated-case budget of the thorough tier
 RULE = ("images drawn from 11 structured kinds (random fills, checkerboards, combs, spirals, "
         "staircases, borders, blobs...) x shapes 2x2..64x64 (quick) / ..512x512 (thorough) incl. "
         "2xN and Nx2 x threshold position x connectivity 4/8 x garbage-prefilled label buffers; "
